@@ -46,13 +46,19 @@ func rename(t *rapid.T, p *pat.Pattern) string {
 			continue
 		}
 		name, ign := a.P.Name, a.P.Ignore
-		switch rapid.IntRange(0, 2).Draw(t, "renameHow") {
+		colon := strings.HasSuffix(a.P.Token, ":}") // the {name:} spelling of a parameter without a rule
+		switch rapid.IntRange(0, 3).Draw(t, "renameHow") {
 		case 0:
 			name = fmt.Sprintf("zz%d", k)
 			changed = true
 		case 1:
 			ign = !ign
 			changed = true
+		case 2:
+			if a.P.Rule == "" {
+				colon = !colon // same name, the other spelling: still the same route
+				changed = true
+			}
 		}
 		k++
 		sb.WriteByte('{')
@@ -62,6 +68,8 @@ func rename(t *rapid.T, p *pat.Pattern) string {
 		sb.WriteString(name)
 		if a.P.Rule != "" {
 			sb.WriteString(":" + a.P.Rule)
+		} else if colon {
+			sb.WriteByte(':')
 		}
 		sb.WriteByte('}')
 	}
@@ -267,6 +275,9 @@ func check(c Case, st *rig.Stats) error {
 	s := life.NewSys(env, c.Icpt, rig.Opts{Trace: c.Trace})
 	for _, op := range c.Ops {
 		s.Apply(op)
+		if v := s.Complaint(); v != nil {
+			return v
+		}
 	}
 	nontriv := false
 	var classes []string
